@@ -21,7 +21,7 @@ from ..astq import assignments, calls, kwarg, params, stmts
 from ..callgraph import fkey
 from ..cfg import cond_atoms
 from ..report import Check
-from ..source import AnalysisError, Project, ancestors, body_walk, dotted, enclosing_stmt, last_attr, norm, parent, short
+from ..source import AnalysisError, Project, ancestors, body_walk, dotted, enclosing_func, enclosing_stmt, last_attr, norm, parent, short
 from . import C03, C09
 
 PATCH_POINTS = {
@@ -50,6 +50,54 @@ def run(chk: Check, proj: Project) -> None:
     from .C17 import s5_accessors
 
     s5_accessors(chk, proj, ["MULTILINE_TAGS"], rule="S8")
+    s9(chk, proj)
+
+
+def s9(chk: Check, proj: Project) -> None:
+    chk.rule("S9", "the block layer of a component render exists before any context of that render is snapshotted; the loop layer handed to an isolated component is found by its `forloop` key (not by position); a component template's Origin.template_name is the name it was compiled under (relative {% extends %}/{% include %} resolve against it)")
+    from ..cfg import CFG
+
+    r = proj.try_func("component", "Component._render_with_id") or proj.try_func("component", "Component._render_impl")
+    m, f = r  # type: ignore[misc]
+    chk.analysed(f"{m.name}:{f.name}")
+    cfg = CFG(f)
+    dom = cfg.dominators()
+    push = [c for c in calls(f) if isinstance(c.func, ast.Attribute) and c.func.attr == "push" and norm(c.func.value).endswith(".render_context") and any("BLOCK_CONTEXT_KEY" in norm(a) for a in c.args)]
+    snaps = [c for c in calls(f, "snapshot_context") if enclosing_func(c) is f]
+    if len(push) != 1 or not snaps:
+        chk.undecided("S9", "component:render:block-layer-before-snapshots", m.loc(f), f"{len(push)} block-layer pushes, {len(snaps)} snapshots")
+    else:
+        pn = cfg.node_containing(push[0])
+        late = [c for c in snaps if not any(cfg.dominates(p_, x, dom) for p_ in pn for x in cfg.node_containing(c))]
+        chk.ob("S9", "component:render:block-layer-before-snapshots", m.loc(late[0]) if late else m.loc(push[0]), not late,
+               f"the render_context push dominates all {len(snaps)} snapshot_context() calls of the render" if not late else
+               f"`{short(late[0])}` is taken before the render's block layer is pushed: the outer-context snapshot used by isolated-mode fills lacks that layer, so a {{% block %}} inside a fill of a nested extends-based component shows the parent's content instead of the override")
+    cm, cf = proj.func("context", "_copy_forloop_context")
+    chk.analysed(f"{cm.name}:{cf.name}")
+    src = params(cf)[0]
+    subs = [x for x in ast.walk(cf) if isinstance(x, ast.Subscript) and norm(x.value) == f"{src}.dicts" and not isinstance(x.slice, ast.Slice) and isinstance(x.ctx, ast.Load)]
+    okl = False
+    why = "no layer subscript found"
+    for x in subs:
+        idx = x.slice
+        d = [v for _s, v in assignments(cf, idx.id)] if isinstance(idx, ast.Name) else [idx]
+        okl = any(v is not None and any(isinstance(c, ast.Call) and last_attr(c.func) in ("get_last_index", "get_index") for c in ast.walk(v)) and "'forloop' in" in norm(v) for v in d)
+        why = f"index `{norm(idx)}`"
+    chk.ob("S9", "context:_copy_forloop_context:layer-found-by-key", cm.loc(subs[0]) if subs else cm.loc(cf), okl if subs else None,
+           "the forwarded layer is the last one that contains `forloop`" if okl else
+           f"the forwarded loop layer is chosen by position ({why}), not by the `forloop` key: {{% block %}}, {{{{ block.super }}}}, {{% include %}} and {{% with %}} push their own layer above the loop's, so an isolated component reached through them loses `forloop` and the loop variable")
+    gm, gf = proj.func("component", "Component._get_template")
+    chk.analysed(f"{gm.name}:{gf.name}")
+    n = 0
+    for c in [c for c in calls(gf) if kwarg(c, "origin") is not None and kwarg(c, "name") is not None]:
+        org = kwarg(c, "origin")
+        if isinstance(org, ast.Call) and kwarg(org, "template_name") is not None:
+            n += 1
+            a, b = norm(kwarg(c, "name")), norm(kwarg(org, "template_name"))
+            chk.ob("S9", "component:_get_template:origin-template_name-is-the-template-name", gm.loc(org), a == b,
+                   f"Origin.template_name == name == `{a}`" if a == b else
+                   f"the Template is named `{a}` but its Origin.template_name is `{b}`: Django resolves './x.html' / '../x.html' in {{% extends %}} and {{% include %}} against origin.template_name, so a component whose template_file lives in a sub-directory picks up a same-named template elsewhere or raises TemplateDoesNotExist")
+    chk.floor("S9", n, 1)
 
 
 def s7(chk: Check, proj: Project) -> None:
